@@ -163,6 +163,8 @@ func scenarioC06(r *Run) {
 		r.c06Call(dec.Name+".UnmarshalCBOR", input, func() { err = dec.Into(dst, input) })
 		r.Logf("%s: %s", dec.Name, errTag(err))
 		if err != nil {
+			// what every caller does next with a refusal: read it
+			r.c06Call(dec.Name+".UnmarshalCBOR: Error() of the returned error", input, func() { _ = err.Error() })
 			continue
 		}
 		accepted++
@@ -173,6 +175,9 @@ func scenarioC06(r *Run) {
 	var env *cose.Sign1Message
 	var eerr error
 	r.c06Call("VerifyHashEnvelope", input, func() { env, eerr = cose.VerifyHashEnvelope(verifier, input) })
+	if eerr != nil {
+		r.c06Call("VerifyHashEnvelope: Error() of the returned error", input, func() { _ = eerr.Error() })
+	}
 	if eerr == nil && env != nil {
 		r.Outcome("accepted-by:VerifyHashEnvelope")
 		r.Check()
